@@ -152,6 +152,8 @@ def check(repo, res, tier):
     res.rule('C10.D2', 'every random generator is seeded (default_rng(seed)); no global-state draws')
     res.rule('C10.D3', 'time.time()/datetime.now()/id() reach only the excluded timing/name sinks')
     res.rule('C10.D4', 'every scheduling algorithm printed into the tables defines __repr__/__str__')
+    res.rule('C10.D5', 'adopted C15.Y2 (seeding itself is C10.D2): every delay value is drawn for that call and is a '
+                       'function of (seed, arguments) only -- no cache or generator state carried between calls')
     res.assumptions += ['SimPy event order is deterministic (time, priority, insertion id); checked in sa/simpy_model',
                         'dict iteration is insertion-ordered (CPython >= 3.7)']
     sets = set_typed_names(repo)
@@ -165,6 +167,9 @@ def check(repo, res, tier):
         check_d3(res, canon, f)
     for why in sorted(SKIP_MODULES.items()):
         res.note('skipped %s: %s' % why)
+    from . import c15
+    from .common import borrow
+    borrow(repo, res, tier, c15, {'C15.Y2'}, 'C10.D5')
     # D4
     for c in repo.subclasses('Scheduling'):
         run = c.find_method('run')
